@@ -3,7 +3,7 @@ from __future__ import annotations
 import ast, builtins, collections, copy, operator, typing, itertools
 import z3
 from . import api
-from .core import Unsupported, PathEnd, PyRaise
+from .core import simp, Unsupported, PathEnd, PyRaise
 from .zsorts import VStruct, VOpt, VBox, VObj, VAbs
 from .interp import Frame, Closure, BoundMethod, Builtin, is_sym, contains_sym
 from .exprs import PyList, PyDict
@@ -445,7 +445,7 @@ class MethodMixin:
         elif name == 'insert':
             i = args[0]
             pos = self.norm_index(i, n)
-            recv.term = z3.simplify(z3.Concat(z3.SubSeq(t, 0, pos), z3.Unit(self.zs.lift(args[1], es)), z3.SubSeq(t, pos, n - pos)))
+            recv.term = simp(z3.Concat(z3.SubSeq(t, 0, pos), z3.Unit(self.zs.lift(args[1], es)), z3.SubSeq(t, pos, n - pos)))
         elif name == 'pop':
             if args:
                 i = args[0]
@@ -460,13 +460,13 @@ class MethodMixin:
                 pos = n - 1
             self.index_guard(ok, node)
             x = t[pos]
-            recv.term = z3.simplify(z3.Concat(z3.SubSeq(t, 0, pos), z3.SubSeq(t, pos + 1, n - pos - 1)))
-            return z3.simplify(x)
+            recv.term = simp(z3.Concat(z3.SubSeq(t, 0, pos), z3.SubSeq(t, pos + 1, n - pos - 1)))
+            return simp(x)
         elif name == 'popleft':
             self.index_guard(n > 0, node)
             x = t[0]
             recv.term = z3.SubSeq(t, 1, n - 1)
-            return z3.simplify(x)
+            return simp(x)
         elif name in ('index', 'count'):
             return self.m_seq(t, name, args, kwargs, node)
         else:
